@@ -57,4 +57,19 @@ CHECKS = {
                             "continuation_checked"],
         "assumptions": COMMON_ASSUMPTIONS + ["durability unit = one datastore mutation that returned (weshnet never calls Sync); batches are atomic"],
     },
+    "C15": {
+        "pkg": "internal/queue",
+        "test": "TestVerifC15",
+        "instrument": ["internal/queue"],
+        "level": "exploration",
+        "quick": {"seconds": 25, "checks_per_proc": 1500},
+        "thorough": {"seconds": 300, "checks_per_proc": 10000},
+        "rule": "one case = (scenario: 1-2 producers, 1-3 unique items, optional cancellation, optional concurrent Pop; or 1-2 tasks of "
+                "Add/Next/NextAll/Size on the priority queue) x one goroutine schedule chosen at every instrumented lock/unlock/select "
+                "of internal/queue by the seeded scheduler (3 strategies); non-trivial = the schedule contains at least one preemption "
+                "(a switch away from a task that could have continued); distinct = distinct hash of the scheduler trace "
+                "(task label and source site per step).",
+        "required_probes": ["history_linearizable", "priority_queue_run", "consumer_blocked_at_end"],
+        "assumptions": COMMON_ASSUMPTIONS + ["schedules are explored at the instrumented synchronisation points; code between two points runs atomically"],
+    },
 }
